@@ -161,12 +161,30 @@ pub fn k19_3_simple_sequence<S: Src, const STEPS: usize>(s: &mut S) {
     let mut leader_changes = 0usize;
     let mut restores = 0usize;
     let mut replayed = 0usize;
+    let mut installs = 0usize;
     let mut k = 0;
     while k < STEPS {
         k += 1;
         let op = s.u8();
-        s.assume(op < 4);
-        if op == 0 {
+        s.assume(op < 5);
+        if op == 4 {
+            // a running replica receives the other replica's latest snapshot (snapshot installation: ConfigCmd::InnerSetLastId
+            // -> set_last_id on the live sequence, whatever is left of its own batch) and replays the log suffix behind it
+            let w = if s.bool() { 0 } else { 1 };
+            let o = 1 - w;
+            if snap_has[o] {
+                let q: &mut SimpleSequence = if w == 0 { &mut r0 } else { &mut r1 };
+                q.set_last_id(snap_val[o]);
+                let mut j = 0;
+                while j < STEPS {
+                    if j >= snap_at[o] && j < n && tlog_has[j] {
+                        q.set_valid_last_id(tlog_val[j]);
+                    }
+                    j += 1;
+                }
+                installs += 1;
+            }
+        } else if op == 0 {
             // publish through the current leader; committed and applied on both replicas
             let (id, table_id) = if leader0 {
                 r0.next_state().unwrap()
@@ -224,6 +242,7 @@ pub fn k19_3_simple_sequence<S: Src, const STEPS: usize>(s: &mut S) {
     }
     vcover!(s, n >= 3 && leader_changes >= 1, "three publishes with a leader change");
     vcover!(s, n >= 2 && restores >= 1 && replayed >= 1, "restart with snapshot and replayed suffix, then publish");
+    vcover!(s, installs >= 1 && n >= 2, "snapshot installed on a running replica");
 }
 
 pub fn k19_3_simple_sequence_6<S: Src>(s: &mut S) {
